@@ -4,17 +4,17 @@ import json, subprocess
 BUILT = "C01 C02 C03 C04 C05 C06 C07 C08 C09 C10 C11 C12 C13 C14 C15 C16 C17 C18 C19 C20".split()
 NA = {}  # property -> reason (genuinely not applicable)
 TECH = {
- "C01": "state-graph dominance (K1) + CFG path rules on gate routing/order (K2,K3) + exact caller sets (K4) over go/types+go/cfg + context-origin def-use of the run context (K11) + join pairing and Wait-result propagation in the check-group runners (K3,K2)",
+ "C01": "state-graph dominance (K1) + CFG path rules on gate routing/order (K2,K3) + exact caller sets (K4) over go/types+go/cfg + context-origin def-use of the run context (K11) + join pairing and Wait-result propagation in the check-group runners (K3,K2), state-graph spawn/join of the continuous checks (K1)",
  "C02": "def-use of limiter/pool size (K11) + acquire/release pairing on CFG paths (K3) + comparison shape (K5) + who-may-write lint on the shared engine value (K4) + context plumbing to the plugin (K11) + lock-scope check-then-act pairing of Start (K3)",
- "C03": "comparison-shape lint on failures vs tolerance (K5) + CFG path rules on counting, launch guards and outcome routing (K2,K3) + assume-and-refute per loop iteration on repair-then-classify (K2) + loop-exhaustion rule on the stored-failure count (K2)",
+ "C03": "comparison-shape lint on failures vs tolerance (K5) + CFG path rules on counting, launch guards and outcome routing (K2,K3) + assume-and-refute per loop iteration on repair-then-classify (K2) + loop-exhaustion rule on the stored-failure count (K2), package-wide guarded-comparison lint on ToleratedFailures (K5), failed-group assume-and-refute (K2)",
  "C04": "CFG must-pass/pairing (K3), state-graph spawn/join (K1), switch exhaustiveness and table agreement (K7), path routing (K2) + assume-and-refute scan completeness (K7), end-stamp pairing on every terminal assignment (K3) + no-item-skipped rule on the final writer's walk loop (K7)",
- "C05": "comparison shape + dominance of the retry guard (K5,K3), defer-order/pairing on CFG paths (K3), outcome mapping on paths (K2), runner state graph (K1) + freshness def-use of the result channel (K11), recovery verdict by assume-and-refute (K2)",
- "C06": "gate routing on CFG paths (K2), state graph (K1), call-graph unreachability of plugin invocation (K4) + assume-and-refute on gate evaluation and on recovery of failed gates (K2) + Wait-result propagation of the group verdict (K2)",
- "C07": "send/close pairing on CFG paths (K3), drain/poll routing (K2), state-graph predecessor sets and spawn/join (K1) + blocking/non-blocking send classification (K3), sticky failure verdict on paths (K2) + emptied-Attempts-before-run rule on the inlined paths of runChecksOnce (K3)",
- "C08": "persist-before-act ordering on CFG paths (K3), storage error discipline at every Update* site (K6), state graph (K1), who-may-call (K4) + mark-Running-before-act and write-after-mark on CFG paths (K3)",
+ "C05": "comparison shape + dominance of the retry guard (K5,K3), defer-order/pairing on CFG paths (K3), outcome mapping on paths (K2), runner state graph (K1) + freshness def-use of the result channel (K11), recovery verdict by assume-and-refute (K2), exact-type-comparison lint on isType (K5)",
+ "C06": "gate routing on CFG paths (K2), state graph (K1), call-graph unreachability of plugin invocation (K4) + assume-and-refute on gate evaluation and on recovery of failed gates (K2) + Wait-result propagation of the group verdict (K2), recovery dispatch routing (K2)",
+ "C07": "send/close pairing on CFG paths (K3), drain/poll routing (K2), state-graph predecessor sets and spawn/join (K1) + blocking/non-blocking send classification (K3), sticky failure verdict on paths (K2) + emptied-Attempts-before-run rule on the inlined paths of runChecksOnce (K3), reason-scan completeness (K7)",
+ "C08": "persist-before-act ordering on CFG paths (K3), storage error discipline at every Update* site (K6), state graph (K1), who-may-call (K4) + mark-Running-before-act and write-after-mark on CFG paths (K3), write-on-every-exit pairing in runAction (K3)",
  "C10": "wiring by def-use and call graph (K4,K11), state graphs of the recovery and plan machines (K1), join pairing (K3) — structural necessary conditions only + write-order lint of whole-plan writers (K3), stream-loop call-graph reach (K4), assume-and-refute on failed groups (K2) + recovered-gate and durable-verdict assume-and-refute rules (K2)",
- "C11": "literal/def-use checks of the start-up filter (K11), comparison shape of the staleness test (K5), path rules on agedOut persistence (K2,K6), who-may-call (K4) + write-order lint of the stale-close writer (K3)",
- "C12": "lock-scope pairing on CFG paths (K3), guard dominance in validators (K5,K2), enumeration of non-returning call sites (K4), nil-guard and positive-argument dominance (K10,K5) + nil-then-dereference contradiction rule and index-past-end lint over the API-reachable packages (K10), no-mutation-on-refusal call-graph reach (K4)",
+ "C11": "literal/def-use checks of the start-up filter (K11), comparison shape of the staleness test (K5), path rules on agedOut persistence (K2,K6), who-may-call (K4) + write-order lint of the stale-close writer (K3), loop-exhaustion rule on lastUpdate (K2), no-item-skipped rule on the close-out writer (K7)",
+ "C12": "lock-scope pairing on CFG paths (K3), guard dominance in validators (K5,K2), enumeration of non-returning call sites (K4), nil-guard and positive-argument dominance (K10,K5) + nil-then-dereference contradiction rule and index-past-end lint over the API-reachable packages (K10), no-mutation-on-refusal call-graph reach (K4), error-companion nil facts for vault reads, function literals included (K10)",
  "C13": "schema/statement agreement over the constant SQL and entry structs (K8): INSERT/UPDATE/SELECT closure, per-column writer-source = reader-destination, storage classes; field coverage from go/types (K7); not-found path rule (K2) + transaction-variable def-use (K11,K3), decode-target freshness (K11)",
  "C14": "transaction-scope pairing (K3,K11), error discipline at every call site of the create/delete scope (K6), delete traversal coverage from go/types and DELETE statement lint (K7,K8) + batch-per-attempt capture lint on retry literals (K3)",
  "C15": "SQL predicate lint (K8), symbolic expansion of the query builder's CFG paths into templates (K2,K8), stream close/connection ownership pairing (K3), sibling-literal agreement (K7) + retry-context capture lint (K11), constructor copy-order lint (K7) + send-has-a-way-out lint on stream producers (K3), one-statement-per-stream path rule (K3)",
